@@ -519,24 +519,35 @@ FAC_POOL = ["f", "g", "sex", "Grp", "c3", "zz", "a", "B", "q7", "Yf"]
 LEVEL_POOLS = [None, None, ["a", "b", "c"], ["f", "m", "x"], ["B", "a", "C"], ["1x", "y2", "Z"]]   # None: integer levels 1..3
 
 
+# (dtype, wide range lo..hi, small range lo..hi) of a numeric record field
+NUM_DTYPES = [(np.float64, -3, 3, -3, 3), (np.int64, -3, 3, -3, 3), (np.float32, -3, 3, -3, 3), (np.uint8, 0, 20, 0, 6),
+              (np.int8, -12, 12, -3, 3), (np.uint16, 0, 300, 0, 6), (np.int32, -50000, 50000, -3, 3), (np.bool_, 0, 1, 0, 1),
+              (np.float64, -3, 3, -3, 3), (np.int16, -200, 200, -3, 3)]
+
+
 class Universe:
     """numeric terms + factors with names drawn from pools whose mutual sort order varies (term names before /
     after the factor-level names, mixed case, digits), integer or string levels, shuffled record field order.
     Model rows hold integers: numeric values, and level CODES 1..3 for the factor columns."""
 
-    def __init__(self, rng, FM, nt, nfac, nrows):
+    def __init__(self, rng, FM, nt, nfac, nrows, wide=False):
         self.FM = FM
         self.num_names = [TERM_POOL[k] for k in rng.choice(len(TERM_POOL), size=nt, replace=False)]
         fpool = [n for n in FAC_POOL if n not in self.num_names]
         self.fac_names = [fpool[k] for k in rng.choice(len(fpool), size=nfac, replace=False)]
         self.lev_pool = [LEVEL_POOLS[int(rng.integers(0, len(LEVEL_POOLS)))] for _ in range(nfac)]
         self.nt, self.nfac = nt, nfac
+        # field dtypes of the record array vary: Formula.design must evaluate the terms in float64 whatever the
+        # storage type (values are chosen so that products / powers leave the range of the narrow and unsigned types)
+        self.num_dtype = [NUM_DTYPES[int(rng.integers(0, len(NUM_DTYPES)))] for _ in range(nt)]
+        fac_int = [np.int_, np.int8, np.uint8, np.int32]
         rows = []
         for _ in range(nrows):
-            rows.append([int(rng.integers(-3, 4)) for _ in range(nt)] + [int(rng.integers(1, 4)) for _ in range(nfac)])
+            rows.append([int(rng.integers(d[1 if wide else 3], d[2 if wide else 4] + 1)) for d in self.num_dtype]
+                        + [int(rng.integers(1, 4)) for _ in range(nfac)])
         self.rows = rows
-        fields = [(n, np.float64) for n in self.num_names] + [
-            (n, np.int_ if self.lev_pool[j] is None else "U2") for j, n in enumerate(self.fac_names)]
+        fields = [(n, self.num_dtype[c][0]) for c, n in enumerate(self.num_names)] + [
+            (n, fac_int[int(rng.integers(0, 4))] if self.lev_pool[j] is None else "U2") for j, n in enumerate(self.fac_names)]
         order = [int(k) for k in rng.permutation(len(fields))]           # design() reads fields by NAME
         self.data = np.array([tuple(self.py_value(c, r[c]) for c in order) for r in rows], dtype=[fields[c] for c in order])
         self.terms = [FM.Term(n) for n in self.num_names]
@@ -571,7 +582,7 @@ class Universe:
         return (self.FM.Factor(name, [self.py_value(col, lev) for lev in codes]), idx, list(codes), col)
 
     def describe(self):
-        return {"fields": list(self.data.dtype.names), "atoms": self.atom_name,
+        return {"fields": list(self.data.dtype.names), "field_dtypes": [str(self.data.dtype[n]) for n in self.data.dtype.names], "atoms": self.atom_name,
                 "records": [list(map(str, r)) for r in self.data.tolist()]}
 
     def coq_atoms(self):
@@ -689,11 +700,13 @@ def sec_formulae(ck, FM):
     B = Batch(ck, "design/model-vs-impl", lambda r: "%s .design(%s) -> impl columns %s" % (r["formula"], r["rows"], r["impl"]))
     N = ck.n(150, 1500)
     n_dup = 0
+    n_big = 0
+    dtypes_seen = {}
     feats = {}
     for i in range(N):
         nt = 1 + i % 3
         nfac = [0, 1, 1, 2, 2][(i // 3) % 5]
-        U = Universe(rng, FM, nt, nfac, int(rng.integers(1, 6)))
+        U = Universe(rng, FM, nt, nfac, int(rng.integers(1, 6)), wide=(i % 3 != 0))
         f, cexpr, desc = gen_formula(rng, U, 1 + i % 3)
         check_ops(ck, FM, rng, U)
         impl = None
@@ -728,8 +741,15 @@ def sec_formulae(ck, FM):
         mult = {}
         for t in terms:
             mult[U.canon(t)[1]] = mult.get(U.canon(t)[1], 0) + 1
+        if any(abs(U.meval(mon, r)) * m >= 2 ** 53 for mon, m in mult.items() for r in U.rows):
+            n_big += 1          # a term value is not exactly representable in float64: outside the exact island
+            continue
         dup = any(v > 1 for v in mult.values())
         n_dup += dup
+        dts = sorted(set(np.dtype(U.num_dtype[a][0]).name for mon in mult for a, e in enumerate(mon) if e and U.atoms[a][0] == "num"))
+        for dn in dts:
+            dtypes_seen[dn] = dtypes_seen.get(dn, 0) + 1
+        narrow = any(dn not in ("float64", "int64") for dn in dts)
         ck.count(("design", desc, tuple(map(tuple, U.rows))), nontrivial=len(terms) > 1,
                  bucket="design:terms=%s:%s%s" % (len(terms) if len(terms) < 6 else "6+", name_order_feature(U, mult), ":dup" if dup else ""))
         feats[name_order_feature(U, mult)] = feats.get(name_order_feature(U, mult), 0) + 1
@@ -751,7 +771,7 @@ def sec_formulae(ck, FM):
                                 {"formula": desc, "rows": U.rows, "universe": U.describe(), "term": list(mon), "impl": col, "expected": want})
                     else:
                         tname = "*".join("%s%s" % (U.atom_name[a], "" if e == 1 else "**%d" % e) for a, e in enumerate(mon) if e) or "1"
-                        ck.fail("design/column-not-term/" + name_order_feature(U, mult),
+                        ck.fail("design/column-not-term/" + name_order_feature(U, mult) + ("/narrow-or-unsigned-field-dtype" if narrow else ""),
                                 "%s: design field of term %s is %s*%s, the term evaluated on the records gives %s" % (desc, tname, k, col, want),
                                 {"formula": desc, "rows": U.rows, "universe": U.describe(), "term": tname, "impl": col, "expected": want})
                         break
@@ -786,7 +806,7 @@ def sec_formulae(ck, FM):
             ck.fail("factor/indicators-partition", "Factor %s design of column %s is not the level-indicator partition: %s %s" % (fname, col, d.dtype.names, M.tolist()),
                     {"factor": fname, "column": [str(c) for c in col], "names": list(d.dtype.names), "design": M.tolist()})
     n = B.run()
-    ck.section("formulae", cases=N, model_cases=n, formulas_with_repeated_term=n_dup, factor_cases=nF, name_order_features=feats,
+    ck.section("formulae", cases=N, model_cases=n, formulas_with_repeated_term=n_dup, factor_cases=nF, name_order_features=feats, numeric_field_dtypes_used=dtypes_seen, skipped_not_float64_exact=n_big,
                products_replaced_because_shortcut_is_order_sensitive=ORDER_SENSITIVE[0])
 
 
